@@ -626,12 +626,11 @@ func runC18(c *Ctx) {
 			langName[v] = l.Name()
 		}
 	}
-	for _, fnName := range []string{"singleLineComment", "multiLineComment"} {
-		fb[fnName] = map[string]bool{}
-		fn := p.Func(cpPkg, "(*input)."+fnName)
-		if !c.R.Anchor(fn != nil, "commentparser.(*input)."+fnName) {
-			continue
-		}
+	// The two sides are told apart by the delimiter function that is asked (SingleLine.../Multiline... of the language
+	// package), wherever in the comment parser the question is put: in the helpers singleLineComment and multiLineComment
+	// or, if one of them was folded into the lexer, in the lexer itself.
+	fb["singleLineComment"], fb["multiLineComment"] = map[string]bool{}, map[string]bool{}
+	for _, fn := range pkgFuncs(p, cpPkg) {
 		// which language constant is the current language known to equal at block b?
 		langAt := func(b *ssa.BasicBlock) (string, bool) {
 			for _, f := range core.FactsAt(b) {
@@ -645,7 +644,16 @@ func runC18(c *Ctx) {
 		}
 		for _, call := range core.CallsIn(fn) {
 			cal := call.Common().StaticCallee()
-			if cal == nil || core.FuncPkgPath(cal) != langPkg || len(call.Common().Args) == 0 {
+			if cal == nil || core.FuncPkgPath(cal) != langPkg || len(call.Common().Args) == 0 || cal.Signature.Recv() == nil {
+				continue
+			}
+			fnName := ""
+			switch {
+			case strings.HasPrefix(cal.Name(), "SingleLine"):
+				fnName = "singleLineComment"
+			case strings.HasPrefix(cal.Name(), "Multiline") || strings.HasPrefix(cal.Name(), "MultiLine"):
+				fnName = "multiLineComment"
+			default:
 				continue
 			}
 			recv := call.Common().Args[0]
@@ -690,7 +698,13 @@ func runC18(c *Ctx) {
 		return
 	}
 	cfg := eng.LexConfig{Peek: p.Func(cpPkg, "(*input).peekRune"), Read: p.Func(cpPkg, "(*input).readRune"), Unread: p.Func(cpPkg, "(*input).unreadRune"), EOF: p.Func(cpPkg, "(*input).eof"),
-		MatchLike: []*ssa.Function{match, p.Func(cpPkg, "(*input).singleLineComment"), p.Func(cpPkg, "(*input).multiLineComment")}}
+		MatchLike: []*ssa.Function{match}}
+	// the two helpers that wrap match for the delimiters of the language; one that was folded into the lexer is not there
+	for _, n := range []string{"(*input).singleLineComment", "(*input).multiLineComment"} {
+		if f := p.Func(cpPkg, n); f != nil {
+			cfg.MatchLike = append(cfg.MatchLike, f)
+		}
+	}
 	for _, f := range append([]*ssa.Function{cfg.Peek, cfg.Read, cfg.Unread, cfg.EOF}, cfg.MatchLike...) {
 		if !c.R.Anchor(f != nil, "commentparser lexer primitive") {
 			return
@@ -991,12 +1005,21 @@ func checkChunkIterator(c *Ctx, p *core.Prog) {
 	// sends only in the goroutine
 	sends := 0
 	outside := 0
-	for _, f := range core.WithAnon(fn) {
+	// the producer is a function literal of ChunkIterator or a function of its own that `go` starts
+	scope := core.WithAnon(fn)
+	inProducer := map[*ssa.Function]bool{gofn: true}
+	if gofn.Parent() == nil {
+		for _, f := range core.WithAnon(gofn) {
+			inProducer[f] = true
+			scope = append(scope, f)
+		}
+	}
+	for _, f := range scope {
 		for _, b := range f.Blocks {
 			for _, in := range b.Instrs {
 				if _, ok := in.(*ssa.Send); ok {
 					sends++
-					if f != gofn {
+					if !inProducer[f] {
 						outside++
 					}
 				}
